@@ -247,6 +247,7 @@ SIG_FINALLY = 'exception-in-finally-caught-by-own-catch'
 SIG_EVALFN = 'sloppy-eval-function-declaration-misses-eval-lexical-scope'
 SIG_LEXDEAD = 'lexical-declaration-in-dead-code-rejected'
 SIG_FWDPARAM = 'param-initialiser-after-forward-reference-not-stored'
+SIG_DOWHILE = 'do-while-completion-value-stale-after-abrupt-exit'
 LEXDEAD_MSG = 'Compiler bug: Lexical declaration for an unbound name'
 BADKINDS = ('PANIC', 'SYNTAXERROR', 'ERROR', 'CRASH')
 
@@ -290,6 +291,7 @@ def classify_failure(harness, model, seed, i, f):
         if 'J' in sub: x = G.neutralise(x, 'jump')
         if 'R' in sub: x = G.neutralise(x, 'raw')
         if 'P' in sub: x = G.neutralise_params(x)
+        if 'D' in sub: x = G.dowhile_to_while(x)
         return x
 
     def raw_sig():
@@ -298,9 +300,10 @@ def classify_failure(harness, model, seed, i, f):
         if strict and (G.nonsimple_params_with_raw(var) or G.nonsimple_params_with_raw(prog)):
             return SIG_PARAMS
         return None
-    def more_reference_errors():
-        # symptom of the known parameter-store defect: goja raises a ReferenceError (TDZ) the semantics does not;
-        # the opposite direction (a ReferenceError goja fails to raise) is never attributed to it
+    def goja_raises_first():
+        # symptom of the known parameter-store defect: at the FIRST point where goja and the semantics part ways,
+        # goja raises/logs a ReferenceError (TDZ) the semantics does not.  The opposite direction (a ReferenceError
+        # goja fails to raise) is never attributed to it.
         if not model:
             return False
         g = run_harness(harness, [json.dumps({'id': 'v', 'src': placement_src(var, pl), 'strict': strict, 'timeout_ms': 3000})])
@@ -308,7 +311,20 @@ def classify_failure(harness, model, seed, i, f):
         m = run_proc([model], ['run %d %s' % (FUEL, G.to_sexp(vv, strict))])
         if 'v' not in g or not m or not comparable(m[0]):
             return False
-        return g['v']['out'].count('<ReferenceError>') > m[0].count('<ReferenceError>')
+        go, mo = g['v']['out'], m[0]
+        if ' | ' not in go or ' | ' not in mo:
+            return False
+        gc, gl = go.split(' | ', 1)
+        mc, ml = mo.split(' | ', 1)
+        if gl == ml:
+            return gc == 'T <ReferenceError>' and mc != gc
+        if ml.startswith(gl) and gc == 'T <ReferenceError>':
+            return True
+        k = 0
+        while k < len(gl) and k < len(ml) and gl[k] == ml[k]:
+            k += 1
+        start = gl.rfind(',', 0, k) + 1
+        return gl[start:].startswith('<ReferenceError>') and not ml[start:].startswith('<ReferenceError>')
     try:
         if pair_ok(harness, model, prog, var, strict, pl):
             return None                      # does not reproduce in isolation: leave it unclassified
@@ -320,23 +336,21 @@ def classify_failure(harness, model, seed, i, f):
         if pl == 'eval' and not strict and (G.toplevel_fdecl_and_lexical(var) or G.toplevel_fdecl_and_lexical(prog)) \
                 and pair_ok(harness, model, prog, var, strict, 'global') and pair_ok(harness, model, prog, var, True, 'eval'):
             return SIG_EVALFN                # only the sloppy direct-eval placement fails, and the pattern is present
-        changed = {k: (apply(prog, k) != prog or apply(var, k) != var) for k in 'TJRP'}
+        letters = 'PDJRT'
+        changed = {k: (apply(prog, k) != prog or apply(var, k) != var) for k in letters}
         fwdpat = G.fwd_param_pattern(var) or G.fwd_param_pattern(prog)
-        for sub in ('P', 'J', 'R', 'T', 'PR', 'PJ', 'JR', 'JT', 'RT', 'PT', 'PJR', 'JRT', 'PJRT'):
-            if not all(changed[k] for k in sub):
-                continue
-            if 'R' in sub and raw_sig() is None:
-                continue
-            if 'P' in sub and not (fwdpat and more_reference_errors()):
-                continue
-            if pair_ok(harness, model, apply(prog, sub), apply(var, sub), strict, pl):
-                return {'P': SIG_FWDPARAM, 'T': SIG_FINALLY, 'J': SIG_JUMP, 'R': raw_sig()}[sub[0]]   # P, J, R before T
-                # (the try/finally defect is repaired in /repo: a failure that needs T alone is reported under its
-                #  old signature, which is no longer `known`, i.e. it alarms)
+        usable = [k for k in letters if changed[k] and not (k == 'R' and raw_sig() is None)
+                  and not (k == 'P' and not (fwdpat and goja_raises_first()))]
+        import itertools
+        for size in range(1, len(usable) + 1):
+            for sub in itertools.combinations(usable, size):
+                sub = ''.join(sub)
+                if pair_ok(harness, model, apply(prog, sub), apply(var, sub), strict, pl):
+                    return {'P': SIG_FWDPARAM, 'D': SIG_DOWHILE, 'T': SIG_FINALLY, 'J': SIG_JUMP, 'R': raw_sig()}[sub[0]]
         # sloppy direct-eval defect combined with others: with every other trigger neutralised the sloppy eval
         # placement still fails, while global placement and strict eval pass
         if pl == 'eval' and not strict and (G.toplevel_fdecl_and_lexical(var) or G.toplevel_fdecl_and_lexical(prog)):
-            np_, nv_ = apply(prog, 'TJRP'), apply(var, 'TJRP')
+            np_, nv_ = apply(prog, 'TJRPD'), apply(var, 'TJRPD')
             if pair_ok(harness, model, np_, nv_, False, 'global') and pair_ok(harness, model, np_, nv_, True, 'eval'):
                 return SIG_EVALFN
     except Exception:
